@@ -381,8 +381,9 @@ def law_check(calls, ops, flags, is_canonical=False):
     return out, probes
 
 
-def end_law_check(calls):
-    """P8: a drained end() finishes with DONE, FAIL or a finish code."""
+def end_law_check(calls, aborted_ops=()):
+    """P8: a drained end() finishes with DONE, FAIL or a finish code.
+    aborted_ops: ops cut short by the tick clock (reported as P7/P5, not again as P8)."""
     out = []
     groups = []
     for c in calls:
@@ -391,6 +392,8 @@ def end_law_check(calls):
         elif c.kind in ("ENDC", "FENDC") and groups:
             groups[-1].append(c)
     for g in groups:
+        if g[0].op in aborted_ops:
+            continue
         if g[-1].cls() not in TERMINAL:
             out.append(V("P8", "end-did-not-reach-a-terminal-code", g[0].op, g[0].sid, str([x.brief() for x in g])))
         for x in g[:-1]:
